@@ -4,6 +4,7 @@ R06.noop     reextent to the current extents is an effect-free early return (sto
 R06.order    on resizing paths: allocate, construct ALL new elements (fill value / value-initialisation), copy over
              intersection(old extensions, new extensions), then destroy old, deallocate old, commit base_ and layout
 R06.clear    clear() ends with the empty layout;  R06.reshape  reshape touches only the layout
+R06.assign   assign(first, last) copies in place only when the number AND (D > 1) the extents of the items match the array's; otherwise it rebuilds
 O06.isect    intersection(range, range) for ALL integers, by enumeration of the 75 weak orderings of its four endpoints: the result is
              [max(firsts), min(lasts)) when that is non-empty and empty otherwise (the function only compares, so the orderings are exhaustive)
 """
@@ -92,6 +93,7 @@ def run(tier):
         mod = ownrules.module(wd, D)
         res = ownrules.analyse(mod, rep)
         ownrules.reextent_rules(rep, mod, res, "D=%d" % D)
+        ownrules.assign_rules(rep, mod, res, "D=%d" % D, D)
     cr = viewops.CustomRun(rep, "C06", True, common.workdir("c06"), "isect")
     ncases = add_isect(cr)
     cr.compile(nshards=3)
